@@ -256,6 +256,9 @@ func runHarness(prog *ssa.Program, fn *ssa.Function, hs HarnessSpec, hr *Harness
 		params: hs.Params, known: hs.Known, knownHit: map[string]bool{}, oblMsgs: map[string]bool{},
 		maxPaths: hs.MaxPaths, nSamples: hs.Samples, makeSliceMax: 8, builtinStubs: map[string]string{}}
 	e.injectFailures = hs.InjectFailures
+	if hs.MaxSeconds > 0 {
+		e.deadline = time.Now().Add(time.Duration(hs.MaxSeconds) * time.Second)
+	}
 	if hs.MakeSliceMax > 0 {
 		e.makeSliceMax = hs.MakeSliceMax
 	}
@@ -348,6 +351,9 @@ func runHarness(prog *ssa.Program, fn *ssa.Function, hs HarnessSpec, hr *Harness
 		hr.Status, hr.Inconclusive = "inconclusive", "unwinding/bound failure: "+strings.Join(uniq(e.unwound), "; ")
 	case e.truncated:
 		hr.Status, hr.Inconclusive = "inconclusive", fmt.Sprintf("path budget %d exhausted", e.maxPaths)
+		if e.timedOut {
+			hr.Inconclusive = fmt.Sprintf("time budget %ds exhausted after %d paths", hs.MaxSeconds, e.paths)
+		}
 	}
 	if hr.Status == "" {
 		for _, m := range hs.MustEncode {
